@@ -137,12 +137,34 @@ func c01Concretise(v *c01Vec, uniq string, rng *rand.Rand) []c01Conc {
 				if el[1] == "smugdata" {
 					cd = []byte(fmt.Sprintf("GET /c%d_%d%s HTTP/1.1\r\nHost: h\r\n\r\n", mi, ej, uniq))
 				}
+				switch el[1] {
+				case "crlfdata":
+					cd = []byte("a\r\n")
+				case "crdata":
+					cd = []byte("ab\r")
+				}
 				sz := strconv.FormatInt(int64(len(cd)), 16)
+				switch el[1] { // chunk-size numerals at and beyond the int range
+				case "lz16":
+					sz = "000000000000000" + sz
+				case "h15f":
+					sz = "fffffffffffffff"
+				case "h16_7":
+					sz = "7fffffffffffffff"
+				case "h16_8":
+					sz = "8000000000000000"
+				case "h16_fe":
+					sz = "fffffffffffffffe"
+				case "h16_ff":
+					sz = "ffffffffffffffff"
+				case "h17":
+					sz = "10000000000000000"
+				}
 				if rng.Intn(2) == 0 {
 					sz = strings.ToUpper(sz)
 				}
 				switch el[1] {
-				case "ok", "smugdata":
+				case "ok", "smugdata", "crlfdata", "crdata", "lz16", "h15f", "h16_7", "h16_8", "h16_fe", "h16_ff", "h17":
 					b = []byte(sz + "\r\n" + string(cd) + "\r\n")
 				case "ext":
 					b = []byte(sz + ";n=v\r\n" + string(cd) + "\r\n")
@@ -409,6 +431,17 @@ func (l *c01Ln) Accept() (net.Conn, error) {
 	pc := &c01PipeConn{Conn: c, run: l.run, total: l.total}
 	l.mu.Unlock()
 	return pc, nil
+}
+
+// c01Serve serves one scripted connection; a panic of the serving code is returned as text.
+func c01Serve(s *Server, c *c01Conn) (panicText string) {
+	defer func() {
+		if r := recover(); r != nil {
+			panicText = fmt.Sprint(r)
+		}
+	}()
+	s.ServeConn(c) //nolint:errcheck
+	return ""
 }
 
 type c01NoLog struct{}
@@ -698,6 +731,7 @@ func TestVerifC01ReqFraming(t *testing.T) {
 		for i := 0; i < cfgPerVec; i++ {
 			cfgs = append(cfgs, randCfg())
 		}
+		panicked := false
 		for ci, cfg := range cfgs {
 			seq++
 			uniq := fmt.Sprintf("x%d", seq)
@@ -723,7 +757,21 @@ func TestVerifC01ReqFraming(t *testing.T) {
 			for _, mode := range modes {
 				run := &c01Run{}
 				conn := &c01Conn{segs: c01Segment(wire, bounds, mode, rng), run: run}
-				srv.ServeConn(conn) //nolint:errcheck
+				if p := c01Serve(srv, conn); p != "" {
+					// the goroutine serving the connection panicked: a violation of its own, and
+					// the server object is not reused
+					delete(servers, cfg)
+					srv = getServer(cfg)
+					panicked = true
+					msg := p
+					if len(msg) > 90 {
+						msg = msg[:90]
+					}
+					vfViol("serve-panic:"+msg, fmt.Sprintf("the goroutine serving the connection panicked: %s [%s seg=%d]", p, cfg, mode),
+						vfRec{"vector_id": v.ID, "pipeline": v.P, "config": cfg.String(), "segmentation": mode, "wire": string(wire), "panic": p})
+					st.runs++
+					continue
+				}
 				st.runs++
 				if c01Judge(&v, cs, want, run.dispatches, cfg, "scripted", mode, wire, &st) {
 					// response shape: one 200 per dispatch, at most one error status, last
@@ -752,7 +800,7 @@ func TestVerifC01ReqFraming(t *testing.T) {
 					}
 				}
 			}
-			if ci == 0 && nvec%pipeEvery == 0 {
+			if ci == 0 && nvec%pipeEvery == 0 && !panicked {
 				// the same pipeline over a fasthttputil pipe, default configuration
 				run := &c01Run{closedCh: make(chan struct{})}
 				ln.mu.Lock()
